@@ -292,7 +292,13 @@ func (t *loopTr) flowCall(st ast.Stmt, c *ast.CallExpr, sig *fnSig, lhs []ast.Ex
 		args = append(args, fmt.Sprintf("(%s.drop %s)", name, n))
 		wbs[i] = wb{o: o, lo: n}
 	}
-	// a variable written by the callee must not be read through another argument (the callee would see its own writes)
+	// a variable written by the callee must not be read through another argument (the callee would see its own writes);
+	// that includes the fields of the receiver a called method assigns
+	for _, fn := range sig.fieldsOut {
+		if f := fieldObj[fn]; f != nil {
+			seen[f] = true
+		}
+	}
 	for i, a := range c.Args {
 		if isOut[i] {
 			continue
@@ -319,7 +325,7 @@ func (t *loopTr) flowCall(st ast.Stmt, c *ast.CallExpr, sig *fnSig, lhs []ast.Ex
 	}
 	n := len(tys)
 	stn := t.freshName()
-	var b strings.Builder
+	var b, resB strings.Builder
 	for i := range sig.rets {
 		if lhs == nil {
 			break
@@ -334,7 +340,8 @@ func (t *loopTr) flowCall(st ast.Stmt, c *ast.CallExpr, sig *fnSig, lhs []ast.Ex
 		if k.isSlice() && t.params[o] {
 			t.fail(st, "assignment to the slice parameter %s", name)
 		}
-		fmt.Fprintf(&b, "%slet %s : %s := %s\n", ind, name, k.lean(), proj(stn, i, n))
+		// the results are assigned AFTER the call has returned, i.e. after the callee's writes: bound last
+		fmt.Fprintf(&resB, "%slet %s : %s := %s\n", ind, name, k.lean(), proj(stn, i, n))
 	}
 	for j, fn := range sig.fieldsOut {
 		f := fieldObj[fn]
@@ -357,6 +364,7 @@ func (t *loopTr) flowCall(st ast.Stmt, c *ast.CallExpr, sig *fnSig, lhs []ast.Ex
 		}
 		fmt.Fprintf(&b, "%slet %s : %s := %s\n", ind, name, t.objType(w.o), val)
 	}
+	b.WriteString(resB.String())
 	call := "(" + strings.Join(append(append([]string{sig.lean}, fieldArgs...), args...), " ") + ")"
 	if len(tys) == 0 {
 		t.fail(c, "call of %s, which has neither result nor effect", sig.lean)
